@@ -683,16 +683,16 @@ def replay(prop, path):
         r.programs, r.metas = [rec["program"]], [{"stream": "replay"}]
         r.impl, r.model, r.mon, r.problems = run_programs(r.programs, d, shards=1)
         r.dir = d
-        try:
-            os.remove(os.path.join(d, "DONE-codec.json"))
-        except OSError:
-            pass
+        for fn in os.listdir(d):      # results of the stage cached by an earlier replay
+            if fn in ("DONE-codec.json", "extuse.json") or fn.startswith("miri-"):
+                os.remove(os.path.join(d, fn))
+        r.tier = "quick"
         alarms, dis, where, st = spec["stage"](r)
-        print("replay %s: stage: %s %s" % (prop, alarms[0][1] if alarms else "round trips hold", where))
+        print("replay %s: stage: %s %s" % (prop, alarms[0][1] if alarms else "holds", where))
         if alarms or dis:
             print("VIOLATION property=%s replay=%s" % (prop, path))
             return 1
-        return 0
+        # ... and the property's monitors / projection on the recorded program, as for every property
     impl, model, mon, problems = run_programs([rec["program"]], d, shards=1)
     verdicts = props.judge(prop, rec["program"], impl[0], model[0], mon[0])
     print("replay %s: impl-vs-model(%s)=%s monitor=%s" % (
